@@ -639,6 +639,8 @@ def run_group(ctx, pid, ncases=None, only_cases=None):
 
 def run(ctx):
     ctx.proof_stage([GROUP], "Sched/Properties_C01.v", extra_targets=["Sched/Corr.v"])
+    if not ctx.quick():
+        ctx.coqchk(["V.Sched.Properties_C01"])
     run_group(ctx, "C01")
 
 
@@ -679,8 +681,8 @@ MANIFEST = {
         "design_ref": "DESIGN.md section 5, C01; notes/C01.md",
     },
     "level_note": "Theorems hold for the repaired scheduler (fix commits 769ee6347, 27da3f16f, 840d0e442; refuted for the code as found, Sched/Refute.v). "
-                  "Partial: C02 drain clause is proved from the explicit idle configuration, not from 'no step enabled' (C02_quiescent_complete_full is a definition); "
-                  "no termination measure; C11 memory fit is an oracle in the model (monitored with an independent fit computation, not proved). "
+                  "Partial: no termination measure (the quiescent states are characterised, C02_quiescent_complete, but reaching quiescence is only monitored); "
+                  "C11 memory fit is an oracle in the model (monitored with an independent fit computation, not proved). "
                   "The model-to-code tie is trace conformance on generated schedules (generator-bounded). See notes/C01.md.",
     "technique": "Coq proof (invariants over the reachable states of an LTS) + trace-conformance check against the steered real scheduler",
 }
